@@ -1793,3 +1793,24 @@ mutant("c05-active-only-after-connect-reply", "C05", "C05-D9", "client_socket.go
 MUTANTS[-1]["then"] = ("	s.debug.Log(\"Socket connected\")\n", "	s.activeMu.Lock()\n	s.active = true\n	s.activeMu.Unlock()\n	s.debug.Log(\"Socket connected\")\n")
 mutant("c05-frames-enqueued-one-by-one", "C05", "C05-D9", "server_conn.go",
        "		c.packet(packets...)\n", "		for _, pk := range packets {\n			c.packet(pk)\n		}\n")
+
+# ---------------------------------------------------------------- C01 / C02 / C07 (round 3)
+mutant("c07-send-on-transport-read-earlier", "C07", "C07-D8", "engine.io/server_socket.go",
+       """	s.transportMu.RLock()
+	defer s.transportMu.RUnlock()
+	s.transport.Send(packets...)""",
+       """	s.Transport().Send(packets...)""")
+mutant("c02-pollqueue-get-keeps-backing-array", "C02", "C02-D7", "engine.io/transport/polling/poll_queue.go",
+       "	packets := pq.packets\n	pq.packets = nil\n", "	packets := pq.packets\n	pq.packets = pq.packets[:0]\n")
+mutant("c01-shared-parser", "C01", "C01-D9", "parser/json/parser.go",
+       """	return func() parser.Parser {
+		return &Parser{
+			maxAttachments: maxAttachments,
+			json:           json,
+		}
+	}""",
+       """	p := &Parser{
+		maxAttachments: maxAttachments,
+		json:           json,
+	}
+	return func() parser.Parser { return p }""")
